@@ -32,6 +32,7 @@ def jobs(tier, seed):
             for hver in (0, 1):
                 out.append(('recv.k=%d.msg-v%d.trx-v%d' % (k, mver, hver), 'h_recv', dict(k=k, mver=mver, hver=hver)))
         out.append(('power.k=%d' % k, 'h_power', dict(k=k)))
+        if k: out.append(('power-parent-child.k=%d' % k, 'h_power_child', dict(k=k)))
     out.append(('setformat', 'h_setformat', {}))
     for op in ('recv', 'off', 'on'):
         for k in (1, 2):
@@ -134,6 +135,33 @@ def h_power(ctx, k):
         if on: ctx.check('on:queue-unchanged', len(trx._tx_queue) == k and all(a is b for a, b in zip(trx._tx_queue, msgs)))
         else: ctx.check('off:everything-discarded', trx._tx_queue == [])
         ctx.check('running', trx.running == on)
+        x = ctx.int('dummy', 0, 1); ctx.check('dummy', x >= 0)
+
+
+def h_power_child(ctx, k):
+    """power command to a parent with a managed child: POWEROFF discards what is queued on BOTH; the child's own command only its own"""
+    T = env.load(ctx, *TK)
+    with env.symbolic(ctx):
+        net, log, rnd = env.std_env(ctx, T)
+        parent = mk_trx(ctx, T, 'P', 5700); child = mk_trx(ctx, T, 'C', 5700, child_idx=1)
+        parent.child_trx_list.add_trx(child)
+        qs = {}
+        for t in (parent, child):
+            t.running = bool(ctx.bool('%s.running' % t.name)); t._rx_freq = t._tx_freq = 1
+            ms = []
+            for i in range(k):
+                m = T.data_msg.TxMsg(fn=ctx.int('%s.q%d.fn' % (t.name, i), 0, HYPER - 1), tn=i, ver=0); m.pwr = 0; m.burst = None; ms.append(m)
+            t._tx_queue = list(ms); qs[t.name] = ms
+        on = bool(ctx.bool('poweron')); via_child = bool(ctx.bool('addressed-to-child'))
+        tgt = child if via_child else parent
+        with ctx.no_raise('power_event:no-exception'):
+            tgt.power_event_handler(on)
+        affected = [child] if via_child else [parent, child]
+        for t in (parent, child):
+            hit = any(t is a for a in affected)
+            if hit and not on: ctx.check('%s:queue-discarded' % t.name, t._tx_queue == [])
+            else: ctx.check('%s:queue-kept' % t.name, len(t._tx_queue) == k and all(a is b for a, b in zip(t._tx_queue, qs[t.name])))
+            if hit: ctx.check('%s:running' % t.name, t.running == on)
         x = ctx.int('dummy', 0, 1); ctx.check('dummy', x >= 0)
 
 
